@@ -26,13 +26,262 @@ HARNESSES = [
     kani.H("c13_fanout_updates", "fanout width 2: each of increment/absolute/inc/dec/set/record reaches each inner handle once with the same value", "arbitrary u64/f64 values", 400, functions=FUNCS),
     kani.H("c13_stack", "Stack::push composes in push order (last pushed is outermost); prefix over fanout reaches both", B, 600, functions=FUNCS),
 ]
-ASSUME = ["filter (Aho-Corasick) and router (radix trie) layers are not covered by this check yet: their third-party containers are out of reach of the SAT back end (planned: MIR->SMT with the documented meaning of is_match / get_ancestor)",
+ASSUME = ["the filter and router layers are checked by the MIR->SMT engine with radix_trie / aho-corasick by their documented meaning (the crates themselves are trusted)",
           "recording doubles (/verif/kani/dbl) log every call; strings <= 6 bytes"]
 
 
+ASSUME_E3 = ["E3 (router, filter): radix_trie::Trie by its documented meaning (insert replaces the value of an equal key; get_ancestor returns the entry with the longest key that is a prefix of the argument), "
+             "AhoCorasick::is_match as an uninterpreted predicate of (case-insensitivity flag, name) for the configured pattern list (the automaton's own correctness is trusted); "
+             "route patterns of 1 and 2 characters and names of 3 characters with symbolic content; recorders are recording doubles (every describe/register is observed)"]
+
+
+def router(e3):
+    """RouterBuilder::add_route x2 with symbolic masks and patterns, build, then one operation: who receives it"""
+    import z3
+    import _e3
+    from mirsmt import sym, models, check, models_str as MS, models_coll as MC
+    from mirsmt.sym import Ptr, Agg, Enum, Native, Fork, UNIT, bv, Opaque, TailCall
+    P = _e3.program(["metrics-util"])
+    kinds = P.enums["MetricKind"]
+    add_b = [b for b in P.by_last["add_route"] if b.impl and b.impl[1] == "RouterBuilder"][0]
+    build_b = [b for b in P.by_last["build"] if b.impl and b.impl[1] == "RouterBuilder"][0]
+    ops = {k: [b for b in P.by_last[f"describe_{k.lower()}"] if b.impl and b.impl[1] == "Router"][0] for k in kinds}
+    regs = {k: [b for b in P.by_last[f"register_{k.lower()}"] if b.impl and b.impl[1] == "Router"][0] for k in kinds}
+    for plens in ((1, 2), (2, 1), (1, 1), (2, 2)):
+        for kind in kinds:
+            p1 = [z3.BitVec(f"p1_{i}", 32) for i in range(plens[0])]
+            p2 = [z3.BitVec(f"p2_{i}", 32) for i in range(plens[1])]
+            nm = [z3.BitVec(f"name_{i}", 32) for i in range(3)]
+            m1, m2 = z3.BitVec("mask1", 8), z3.BitVec("mask2", 8)
+            valid_masks = lambda m: z3.Or(m == 1, m == 2, m == 4, m == 7)
+            base = [valid_masks(m1), valid_masks(m2)]
+
+            def is_prefix(p, s):
+                return z3.And(*[a == b for a, b in zip(p, s)]) if len(p) <= len(s) else z3.BoolVal(False)
+
+            def m_trie_insert(eng, ctx, f, path, args, dty):
+                t = MC.load(eng, ctx, args[0])
+                key = MS.as_items(eng, ctx, args[1])
+                entries = list(t.data)
+                alts = []
+                none_eq = []
+                for i, (k, v) in enumerate(entries):
+                    eq = MS.text_eq(k, key)
+                    if z3.is_false(z3.simplify(eq)):
+                        continue
+
+                    def repl(c, i=i):
+                        e2 = list(entries)
+                        e2[i] = (e2[i][0], args[2])
+                        eng.store_ptr(c, args[0], Native("trie", tuple(e2)))
+                        return Enum(1, {1: Agg({0: entries[i][1]})}, "Option")
+                    alts.append((z3.And(eq, *none_eq), repl))
+                    none_eq.append(z3.Not(eq))
+
+                def app(c):
+                    eng.store_ptr(c, args[0], Native("trie", tuple(entries) + ((key, args[2]),)))
+                    return Enum(0, {}, "Option")
+                alts.append((z3.And(*none_eq) if none_eq else z3.BoolVal(True), app))
+                return Fork(alts) if len(alts) > 1 else app(ctx)
+
+            def m_get_ancestor(eng, ctx, f, path, args, dty):
+                t = MC.load(eng, ctx, args[0])
+                key = MS.as_items(eng, ctx, args[1])
+                ents = sorted(t.data, key=lambda e: -len(e[0]))
+                alts = []
+                longer_match = []
+                for k, v in ents:
+                    c = is_prefix(k, key)
+                    # entries are sorted by decreasing length: this one is the answer iff it matches and no longer one did
+                    better = [x for kk, x in longer_match if len(kk) > len(k)]
+                    alts.append((z3.And(c, *[z3.Not(b) for b in better]), Enum(1, {1: Agg({0: Native("subtrie", v)})}, "Option")))
+                    longer_match.append((k, c))
+                alts.append((z3.And(*[z3.Not(c) for kk, c in longer_match]) if longer_match else z3.BoolVal(True), Enum(0, {}, "Option")))
+                return Fork(alts)
+
+            def m_dyn_call(opname):
+                def h(eng, ctx, f, path, args, dty):
+                    r = args[0]
+                    while isinstance(r, Ptr):
+                        r = eng.load_ptr(ctx, r)
+                    ctx.observe("delivered", rec=r.data, op=opname)
+                    return Opaque("handle")
+                return h
+
+            def m_get_unchecked(eng, ctx, f, path, args, dty):
+                v = MC.load(eng, ctx, args[0])
+                idx = args[1]
+                if not (isinstance(v, Native) and v.kind == "lvec"):
+                    raise sym.Unsupported(f"get_unchecked on {v}")
+                if sym.is_concrete(idx):
+                    return v.data[sym.concrete(idx)]
+                alts = [(idx == bv(i), x) for i, x in enumerate(v.data)]
+                return Fork(alts)
+            m = {r"^Vec::len$": lambda eng, ctx, f, path, args, dty: bv(len(MC.load(eng, ctx, args[0]).data)),
+                 r"^Vec::push$": lambda eng, ctx, f, path, args, dty: (eng.store_ptr(ctx, args[0], MS.lvec(tuple(MC.load(eng, ctx, args[0]).data) + (args[1],))), UNIT)[1],
+                 r"^Box::new$": models.m_identity, r"as AsRef>::as_ref$": lambda eng, ctx, f, path, args, dty: MC.load(eng, ctx, args[0]),
+                 r"as ToString>::to_string$": lambda eng, ctx, f, path, args, dty: MS.sstr(MS.as_items(eng, ctx, args[0])),
+                 r"Trie::insert$|radix_trie::trie::insert$": m_trie_insert, r"Trie::get_ancestor$|radix_trie::trie::get_ancestor$": m_get_ancestor,
+                 r"as TrieCommon>::value$": lambda eng, ctx, f, path, args, dty: Enum(1, {1: Agg({0: Ptr(("static", MC.new_cell(ctx, MC.load(eng, ctx, args[0]).data, "trieval")))})}, "Option"),
+                 r"^<Vec as Deref>::deref$": lambda eng, ctx, f, path, args, dty: MC.load(eng, ctx, args[0]),
+                 r"^core::slice::(.*::)?get_unchecked$": m_get_unchecked,
+                 r"^KeyName::as_str$|^Key::name$": lambda eng, ctx, f, path, args, dty: MS.sstr(tuple(nm)),
+                 r"as Recorder>::describe_(counter|gauge|histogram)$": m_dyn_call("describe"), r"as Recorder>::register_(counter|gauge|histogram)$": m_dyn_call("register"),
+                 r"begin_panic$": lambda *a: sym.Diverge("panic", "cannot add route for unknown or empty metric kind mask")}
+            m.update(models.BASE)
+            eng = sym.Engine(P, models=m, loop_bound=4, max_paths=5000)
+            eng.merging = False
+            ctx0 = sym.Ctx(eng, 1)
+            empty = Native("trie", ())
+            ctx0.statics = {"rb": Agg({0: Native("rec", 0), 1: Agg({0: z3.BitVecVal(0, 8)}), 2: MS.lvec(()), 3: empty, 4: empty, 5: empty})}
+
+            def script():
+                yield ("call", add_b, [Ptr(("static", "rb")), Agg({0: m1}), MS.sstr(tuple(p1)), Native("rec", 1)])
+                yield ("call", add_b, [Ptr(("static", "rb")), Agg({0: m2}), MS.sstr(tuple(p2)), Native("rec", 2)])
+                rb = yield ("getstatic", "rb")
+                router_v = yield ("call", build_b, [rb])
+                yield ("setstatic", "router", router_v)
+                yield ("call", ops[kind], [Ptr(("static", "router")), Native("aname", 0), Opaque("unit"), Opaque("desc")])
+                return None
+            leaves = eng.run_script(1, "router", script, ctx0=ctx0)
+            e3.absorb(eng)
+            done = [l for l in leaves if l.status == "done"]
+            other = z3.Or(*[l.taken() for l in leaves if l.status != "done"] or [z3.BoolVal(False)])
+            kbit = {"Counter": 1, "Gauge": 2, "Histogram": 4}[kind]
+            a1 = z3.And((m1 & kbit) != 0, is_prefix(p1, nm))
+            a2 = z3.And((m2 & kbit) != 0, is_prefix(p2, nm))
+            same = MS.text_eq(tuple(p1), tuple(p2)) if len(p1) == len(p2) else z3.BoolVal(False)
+            # reference: longest applicable prefix; an identical pattern added later replaces the earlier one for the kinds it covers
+            if len(p1) > len(p2):
+                want = z3.If(a1, 1, z3.If(a2, 2, 0))
+            elif len(p2) > len(p1):
+                want = z3.If(a2, 2, z3.If(a1, 1, 0))
+            else:
+                want = z3.If(z3.And(a2, z3.Or(same, z3.Not(a1))), 2, z3.If(a1, 1, z3.If(a2, 2, 0)))
+            bad = []
+            for l in done:
+                dl = [(e.guard, pl["rec"]) for lab, e, pl in l.obs if lab == "delivered"]
+                n = z3.Sum(*[z3.If(g, 1, 0) for g, r in dl] + [z3.IntVal(0), z3.IntVal(0)])
+                right = z3.And(*[z3.Implies(g, z3.IntVal(r) == want) for g, r in dl]) if dl else z3.BoolVal(True)
+                bad.append(z3.And(l.taken(), z3.Not(z3.And(n == 1, right))))
+            cname = f"c13_router_{kind.lower()}_p{plens[0]}{plens[1]}"
+            bounds = (f"RouterBuilder: two add_route calls (masks among COUNTER/GAUGE/HISTOGRAM/ALL, patterns of {plens[0]} and {plens[1]} characters, symbolic), build, describe_{kind.lower()} "
+                      f"of a 3-character name; {len(done)} paths")
+            specs = [dict(name=f"{cname}:witness", desc="completes", bounds=bounds, cons=base + [z3.Or(*[l.taken() for l in done] or [z3.BoolVal(False)])], expect_unsat=False),
+                     dict(name=f"{cname}:returns", desc="panics or exceeds a loop bound", bounds=bounds, cons=base + [other], expect_unsat=True),
+                     dict(name=f"{cname}:longest_applicable_route_wins", desc="the operation is not delivered to exactly one recorder: the target of the longest route for this kind that is a prefix of the name "
+                          "(a later identical pattern replaces an earlier one), or the default", bounds=bounds, cons=base + [z3.Or(*bad or [z3.BoolVal(False)])], expect_unsat=True)]
+            check.discharge_many(e3.res, specs, 120)
+
+
+def filter_layer(e3):
+    """FilterLayer: layer(r1); reconfigure; layer(r2); an operation through each filter is dropped exactly when the automaton that the
+    *current* configuration describes matches the name"""
+    import z3
+    import _e3
+    from mirsmt import sym, models, check, models_str as MS, models_coll as MC
+    from mirsmt.sym import Ptr, Agg, Enum, Native, Fork, UNIT, bv, Opaque
+    P = _e3.program(["metrics-util"])
+    layer_b = [b for b in P.by_last["layer"] if b.impl and b.impl[1] == "FilterLayer"][0]
+    ci_b = [b for b in P.by_last["case_insensitive"] if b.impl and b.impl[1] == "FilterLayer"][0]
+    dfa_b = [b for b in P.by_last["use_dfa"] if b.impl and b.impl[1] == "FilterLayer"][0]
+    add_b = [b for b in P.by_last["add_pattern"] if b.impl and b.impl[1] == "FilterLayer"][0]
+    matches = z3.Function("automaton_matches", z3.IntSort(), z3.BoolSort(), z3.IntSort(), z3.BoolSort())      # (pattern list id, case-insensitive, name) -> bool
+    ci0, ci1, dfa0, dfa1 = z3.Bool("ci_initial"), z3.Bool("ci_later"), z3.Bool("dfa_initial"), z3.Bool("dfa_later")
+    name = z3.Int("name")
+    plist = [0]
+    for op in ("describe_counter", "describe_gauge", "describe_histogram", "register_counter", "register_gauge", "register_histogram"):
+        for reconf in ("case_insensitive", "add_pattern"):
+            op_b = [b for b in P.by_last[op] if b.impl and b.impl[1] == "Filter"][0]
+
+            def m_build(eng, ctx, f, path, args, dty):
+                bld = MC.load(eng, ctx, args[0])
+                pats = MC.load(eng, ctx, args[1])
+                return Enum(0, {0: Agg({0: Native("automaton", (pats.data, bld.data[0]))})}, "Result")
+
+            def m_is_match(eng, ctx, f, path, args, dty):
+                a = MC.load(eng, ctx, args[0])
+                pl, ci = a.data
+                return matches(z3.IntVal(pl), ci, name)
+
+            def m_inner(eng, ctx, f, path, args, dty):
+                r = MC.load(eng, ctx, args[0])
+                ctx.observe("forwarded", rec=r.data)
+                return Opaque("handle")
+            m = {r"^AhoCorasickBuilder::new$": lambda *a: Native("acbuilder", (z3.BoolVal(False), None)),
+                 r"^AhoCorasickBuilder::ascii_case_insensitive$": lambda eng, ctx, f, path, args, dty: (eng.store_ptr(ctx, args[0], Native("acbuilder", (eng.as_bool(args[1]), MC.load(eng, ctx, args[0]).data[1]))), args[0])[1],
+                 r"^AhoCorasickBuilder::kind$|^AhoCorasickBuilder::(match_kind|prefilter|start_kind|byte_classes|dense_depth)$": lambda eng, ctx, f, path, args, dty: args[0],
+                 r"then_some$": lambda *a: Opaque("kind"), r"^AhoCorasickBuilder::build$": m_build, r"^AhoCorasick::is_match$": m_is_match,
+                 r"^KeyName::as_str$|^Key::name$": lambda *a: Native("aname", name), r"as Recorder>::(describe|register)_(counter|gauge|histogram)$": m_inner,
+                 r"(Counter|Gauge|Histogram)::noop$": lambda *a: Native("noop", None),
+                 r"as AsRef>::as_ref$|as ToString>::to_string$": lambda eng, ctx, f, path, args, dty: MC.load(eng, ctx, args[0]),
+                 r"^Vec::push$": lambda eng, ctx, f, path, args, dty: (eng.store_ptr(ctx, args[0], Native("patterns", MC.load(eng, ctx, args[0]).data + 1)), UNIT)[1],
+                 r"as Clone>::clone$": lambda eng, ctx, f, path, args, dty: MC.load(eng, ctx, args[0])}
+            m.update(models.BASE)
+            eng = sym.Engine(P, models=m, loop_bound=4)
+            eng.merging = False
+            ctx0 = sym.Ctx(eng, 1)
+            ctx0.statics = {"fl": Agg({0: Native("patterns", 0), 1: ci0, 2: dfa0})}
+
+            def script():
+                f1 = yield ("call", layer_b, [Ptr(("static", "fl")), Native("rec", 1)])
+                if reconf == "case_insensitive":
+                    yield ("call", ci_b, [Ptr(("static", "fl")), ci1])
+                    yield ("call", dfa_b, [Ptr(("static", "fl")), dfa1])
+                else:
+                    yield ("call", add_b, [Ptr(("static", "fl")), Native("astr", z3.Int("new_pattern"))])
+                f2 = yield ("call", layer_b, [Ptr(("static", "fl")), Native("rec", 2)])
+                yield ("setstatic", "f1", f1)
+                yield ("setstatic", "f2", f2)
+                args = [Native("aname", name), Opaque("unit"), Opaque("desc")] if op.startswith("describe") else [Native("akey", name), Opaque("metadata")]
+                r1 = yield ("call", op_b, [Ptr(("static", "f1"))] + args)
+                r2 = yield ("call", op_b, [Ptr(("static", "f2"))] + args)
+                return Agg({0: r1, 1: r2})
+            leaves = eng.run_script(1, "filter", script, ctx0=ctx0)
+            e3.absorb(eng)
+            done = [l for l in leaves if l.status == "done"]
+            other = z3.Or(*[l.taken() for l in leaves if l.status != "done"] or [z3.BoolVal(False)])
+            bad = []
+            for l in done:
+                fw = {1: z3.BoolVal(False), 2: z3.BoolVal(False)}
+                cnt = {1: z3.IntVal(0), 2: z3.IntVal(0)}
+                for lab, e, pl in l.obs:
+                    if lab == "forwarded":
+                        fw[pl["rec"]] = z3.Or(fw[pl["rec"]], e.guard)
+                        cnt[pl["rec"]] = cnt[pl["rec"]] + z3.If(e.guard, 1, 0)
+                want1 = z3.Not(matches(z3.IntVal(0), ci0, name))
+                want2 = z3.Not(matches(z3.IntVal(0 if reconf == "case_insensitive" else 1), ci1 if reconf == "case_insensitive" else ci0, name))
+                inert = z3.BoolVal(True)
+                if op.startswith("register"):
+                    # a dropped registration hands out an inert handle, a forwarded one the inner recorder's handle
+                    for i, want in ((0, want1), (1, want2)):
+                        r = l.ret.f[i]
+                        is_noop = isinstance(r, Native) and r.kind == "noop"
+                        inert = z3.And(inert, z3.BoolVal(is_noop) == z3.Not(want))
+                bad.append(z3.And(l.taken(), z3.Not(z3.And(fw[1] == want1, fw[2] == want2, cnt[1] <= 1, cnt[2] <= 1, inert))))
+            cname = f"c13_filter_{op}_{reconf}"
+            bounds = (f"FilterLayer: layer(r1); {'case_insensitive(b); use_dfa(b)' if reconf == 'case_insensitive' else 'add_pattern(p)'}; layer(r2); then {op} through both filters; "
+                      f"configuration flags, the name and the automaton's verdict symbolic; {len(done)} paths")
+            specs = [dict(name=f"{cname}:witness", desc="completes", bounds=bounds, cons=[z3.Or(*[l.taken() for l in done] or [z3.BoolVal(False)])], expect_unsat=False),
+                     dict(name=f"{cname}:returns", desc="panics", bounds=bounds, cons=[other], expect_unsat=True),
+                     dict(name=f"{cname}:dropped_iff_current_configuration_matches", desc="an operation is forwarded although the automaton for the configuration at layer() time matches the name, dropped although it does not, "
+                          "forwarded twice, or a dropped registration does not return an inert handle", bounds=bounds, cons=[z3.Or(*bad or [z3.BoolVal(False)])], expect_unsat=True)]
+            check.discharge_many(e3.res, specs, 120)
+
+
 def run(tier, seed, t0):
-    _kprop.run_kani("C13", tier, seed, t0, [("util", HARNESSES, dict(hooks=True))], ASSUME, FUNCS,
-                    "Kani harnesses over the prefix layer, fanout and Stack with recording recorder doubles")
+    import _e3
+    from mirsmt import sym
+    e3 = _e3.E3("C13")
+    for nm_, fn in (("c13_router", router), ("c13_filter", filter_layer)):
+        try:
+            fn(e3)
+        except (sym.Unsupported, KeyError, IndexError) as ex:
+            e3.error(nm_, "MIR->SMT encoding of the router layer", ex)
+    obs = list(e3.res.obligations)
+    obs += kani.run_group("util", HARNESSES, tier, hooks=True)
+    finish("C13", tier, seed, obs, t0, ASSUME + ASSUME_E3 + ["E3 callee models: " + ", ".join(sorted(e3.models))], FUNCS + sorted(e3.functions),
+           explanation="Kani harnesses over the prefix layer, fanout and Stack with recording recorder doubles + MIR->SMT encoding of the router")
 
 
 def replay(path):
